@@ -611,7 +611,7 @@ let () =
   while !i < n do
     let l = lines.(!i) in
     (match strip_prefix "SCRIPT " l with
-     | Some s -> script := s; churn_max := 0; churn_ok := true; spec := []; spec_other := []; tgt := "A"; spec_valid := true; cfg.hashes <- []; cfg.rule <- "mix"; cfg.eqrule <- "lawful"
+     | Some s -> script := s; churn_max := 0; churn_ok := true; spec := []; spec_other := []; tgt := "A"; spec_valid := true; cur_salt := "0"; cfg.hashes <- []; cfg.rule <- "mix"; cfg.eqrule <- "lawful"
      | None -> ());
     (match strip_prefix "TGT " l with
      | Some t -> let t = String.trim t in
@@ -730,6 +730,7 @@ let () =
        incr steps;
        bump opcount opname;
        let where = Printf.sprintf "script=%s step=%s op=[%s]" !script stepno opname in
+       cur_salt := salt_of_line prea_s;            (* the left operand's hasher state (the two sets may differ) *)
        (try
          let prea = parse_dump prea_s and preb = parse_dump preb_s and post = parse_dump post_s and postb = parse_dump postb_s in
          let ta = table_of_dump prea and tb = table_of_dump preb and tpost = table_of_dump post in
